@@ -80,7 +80,7 @@ theorem run_emitBytes (base g vk vf) (s : VM) (b : Bytes) (hb : b.length < 256) 
   simp only [step, List.nil_append, Nat.le_refl, if_true, leVal_single, toNat_ofNat_lt _ hb]
   cases b with
   | nil =>
-    simp only [List.length_nil, if_true, Option.bind_eq_bind]
+    simp only [List.length_nil, if_true]
     rw [exec_mode, exec_pushdata1 _ _ _ _ _ _ hst]
     simp
   | cons x xs =>
@@ -283,7 +283,7 @@ theorem run_multisig_witness (base : Nat) (g : Bool) (vk : Bytes → Bool) (vf :
   rw [popSig_rev keys _ (by omega)]
   simp only [Option.bind_some]
   rw [popSig_rev_nil sigs hm1]
-  simp only [Option.bind_some, charge_none, multisigFinish, List.length_reverse]
+  simp only [Option.bind_some, multisigFinish, List.length_reverse]
   have h1 : ¬ keys.length < sigs.length := by omega
   have h2 : (g && sigs.reverse.any fun sg => sg.length != signatureLen) = false := by
     cases g with
@@ -293,7 +293,7 @@ theorem run_multisig_witness (base : Nat) (g : Bool) (vk : Bytes → Bool) (vf :
       rw [List.any_eq_false]
       intro x hx
       simp [hg rfl x hx]
-  simp only [h1, h2, if_false, hr, Option.map_some, Option.bind_some, stackCheck]
+  simp only [h1, h2, if_false, hr, Option.map_some]
   have h3 : ¬ ([Item.bool r].length > maxStackSize) := by simp [maxStackSize]
   simp only [Bool.false_eq_true, if_false, Option.bind_some, stackCheck, h3, if_true]
   congr 2
